@@ -134,6 +134,7 @@ type Netceptor struct {
 	reservedServices         map[string]func(*MessageData) error
 	serviceAdsLock           *sync.RWMutex
 	serviceAdsReceived       map[string]map[string]*ServiceAdvertisement
+	serviceAdsWithdrawn      map[string]map[string]time.Time
 	sendServiceAdsChan       chan time.Duration
 	backendWaitGroup         sync.WaitGroup
 	backendCount             int
@@ -332,6 +333,7 @@ func NewWithConsts(ctx context.Context, nodeID string,
 		nameHashes:               make(map[uint64]string),
 		serviceAdsLock:           &sync.RWMutex{},
 		serviceAdsReceived:       make(map[string]map[string]*ServiceAdvertisement),
+		serviceAdsWithdrawn:      make(map[string]map[string]time.Time),
 		sendServiceAdsChan:       nil,
 		backendWaitGroup:         sync.WaitGroup{},
 		backendCount:             0,
@@ -1745,6 +1747,11 @@ func (s *Netceptor) handleServiceAdvertisement(data []byte, receivedFrom string)
 	s.Logger.SanitizedDebug("Received service advertisement from %s\n", si.NodeID)
 	s.serviceAdsLock.Lock()
 	defer s.serviceAdsLock.Unlock()
+	// A withdrawal is remembered by its time: an advertisement or withdrawal that is not newer
+	// (delayed, reordered, or coming round a cycle again) must not bring the service back or be relayed again.
+	if withdrawnAt, withdrawn := s.serviceAdsWithdrawn[si.NodeID][si.Service]; withdrawn && !si.Time.After(withdrawnAt) {
+		return nil
+	}
 	n, ok := s.serviceAdsReceived[si.NodeID]
 	if !ok {
 		n = make(map[string]*ServiceAdvertisement)
@@ -1764,8 +1771,15 @@ func (s *Netceptor) handleServiceAdvertisement(data []byte, receivedFrom string)
 		if len(s.serviceAdsReceived[si.NodeID]) == 0 {
 			delete(s.serviceAdsReceived, si.NodeID)
 		}
+		w, ok := s.serviceAdsWithdrawn[si.NodeID]
+		if !ok {
+			w = make(map[string]time.Time)
+			s.serviceAdsWithdrawn[si.NodeID] = w
+		}
+		w[si.Service] = si.Time
 	} else {
 		s.serviceAdsReceived[si.NodeID][si.Service] = si.ServiceAdvertisement
+		delete(s.serviceAdsWithdrawn[si.NodeID], si.Service)
 	}
 	s.flood(data, receivedFrom)
 
